@@ -263,7 +263,10 @@ TraceBlockEnd ==
                       ELSE {})
                 \cup V(\A p \in Slots : At(ln.riar, p) = ri[p], "conf.riar")
                 \cup V(\A p \in Slots : \A lv \in Levels : At(At(ln.dts, p), lv) = ldt[p], "conf.level_dt")
-                \cup V(ln.carry = hexp, "val.carry")
+                \* the value handed to the next block: after a restart the START value of the first restarted step (C09), otherwise
+                \* the end value of the last step (C06)
+                \cup V(ln.carry = hexp, IF ra < nact THEN "val.restart_start_value" ELSE "val.carry")
+                \cup V(ra >= nact \/ ltm[0] = time[ra], "obs.restart_start_time")
                 \* each accepted step started from exactly the end value of the previous accepted step
                 \cup V(last = <<>> \/ \A p \in 1 .. ra - 1 : At(At(last.h0, p), 0) = At(At(last.he, p - 1), 0), "val.chain")
                 \cup V(\A i \in 1 .. Len(ln.u0) : ln.u0[i] = ln.carry, "val.block_start_value")
